@@ -397,6 +397,6 @@ def r3_mod_tsc(L, repo):
 
 def run(L, tier):
     repo = Repo(L.repo)
-    r1_copy(L, repo)
-    r2_formulas(L, repo)
-    r3_mod_tsc(L, repo)
+    L.stage(r1_copy, L, repo)
+    L.stage(r2_formulas, L, repo)
+    L.stage(r3_mod_tsc, L, repo)
